@@ -88,7 +88,18 @@ where
                 None => Err(OperationError::BacklinkMissing),
             }
         } else {
-            Ok(())
+            // A prune flag allows us to skip the backlink check, but the log still needs to grow
+            // strictly: we never accept an operation "behind" an already stored one, otherwise
+            // pruned or outdated operations could re-enter the log.
+            match past_header {
+                Some(past_header) if past_header.seq_num >= header.seq_num => {
+                    Err(OperationError::SeqNumNonIncremental(
+                        past_header.seq_num.saturating_add(1),
+                        header.seq_num,
+                    ))
+                }
+                _ => Ok(()),
+            }
         }
     } else {
         // Operation is at the beginning of log but we've already progressed and assume a strictly
